@@ -1,9 +1,9 @@
 CONSTANTS
-  W = 4
+  W = 6
   Th <- ThTotp
   Dl <- DlTotp
   TMax = 13
-  NMax = 5
+  NMax = 4
   Exps = {2, 6}
 SPECIFICATION Spec
 CONSTRAINT Bound
